@@ -156,3 +156,40 @@ def concrete_list(path: Path, t: Term, depth: int = 0) -> Optional[List[Term]]:
             return None
         return [subst(t[2], {bs[0]: x}) if bs else t[2] for x in xs]
     return None
+
+
+def as_flatmap(path: Path, t: Term):
+    """``t`` as  ``[y for x in D for y in F(x)]``  ->  (D, x, F(x))  where x is the bound element term used inside F.
+    Read from the nested comprehension itself, or from the accumulator loop ``for x in D: acc.append(a) | acc.extend(b)`` (one
+    contribution per body path; a path contributing nothing contributes the empty list)."""
+    from .sym import t_ite
+    src = t
+    while src[0] == "var" and src[3][0] == "comp":
+        src = src[3]
+    if src[0] == "comp" and src[1] == "list" and len(src[3]) == 2 and not src[3][0][1] and not src[3][1][1]:
+        dom, F = src[3][0][0], src[3][1][0]
+        b1 = [x for x in subterms(src[2], lambda x: x[0] == "bound" and isinstance(x[1], int))]
+        if src[2][0] == "bound" and src[2][3] == show(F):
+            b0 = subterms(F, lambda x: x[0] == "bound" and isinstance(x[1], int) and x[3] == show(dom))
+            if len(b0) == 1:
+                return dom, b0[0], F
+        return None
+    if t[0] != "var" or t[3] not in (("list", ()),):
+        return None
+    muts = _appends(path.events, t)
+    if muts is None or len(muts) != 1 or muts[0][0] != "loop":
+        return None
+    lp = muts[0][1]
+    if lp.term is None:
+        return None
+    elem = ("bound", "for", lp.node.lineno, show(lp.term))
+    F: Optional[Term] = None
+    for bp in reversed(lp.extra["paths"]):
+        a = _appends(bp.events, t)
+        if a is None or len(a) > 1 or bp.exit not in ("fall", "continue") or any(k == "loop" for k, _ in a):
+            return None
+        contrib = ("list", ()) if not a else (("list", (a[0][1],)) if a[0][0] == "item" else a[0][1])
+        F = contrib if F is None else t_ite(bp.cond, contrib, F)
+    if F is None:
+        return None
+    return lp.term, elem, F
